@@ -470,7 +470,16 @@ impl Prop for Mutated {
             prop_oneof![2 => Just(vec![]), 1 => proptest::collection::vec(any::<u16>(), 1..4)],
         )
             .prop_map(
-                |(rx_buffer, fragments, start_seq, interleave, mutations, chunk, datagram, interrupts)| Case {
+                |(
+                    rx_buffer,
+                    fragments,
+                    start_seq,
+                    interleave,
+                    mutations,
+                    chunk,
+                    datagram,
+                    interrupts,
+                )| Case {
                     rx_buffer,
                     fragments,
                     start_seq,
@@ -638,13 +647,20 @@ impl Prop for Mutated {
             for s in &stream {
                 let (b, peer) = frame_of(s);
                 match v.last_mut() {
-                    Some(last) if count < per && last.peer == Some(peer) && last.data.len() + b.len() <= room => {
+                    Some(last)
+                        if count < per
+                            && last.peer == Some(peer)
+                            && last.data.len() + b.len() <= room =>
+                    {
                         last.data.extend(b);
                         count += 1;
                         out.label("frames_share_a_datagram");
                     }
                     _ => {
-                        v.push(Piece { data: b, peer: Some(peer) });
+                        v.push(Piece {
+                            data: b,
+                            peer: Some(peer),
+                        });
                         count = 1;
                     }
                 }
@@ -656,15 +672,25 @@ impl Prop for Mutated {
                 bytes.extend(frame_of(s).0);
             }
             if case.chunk == 0 {
-                vec![Piece { data: bytes, peer: None }]
+                vec![Piece {
+                    data: bytes,
+                    peer: None,
+                }]
             } else {
                 bytes
                     .chunks(case.chunk as usize)
-                    .map(|c| Piece { data: c.to_vec(), peer: None })
+                    .map(|c| Piece {
+                        data: c.to_vec(),
+                        peer: None,
+                    })
                     .collect()
             }
         };
-        let interrupts: Vec<usize> = case.interrupts.iter().map(|i| idx(*i, pieces.len().max(1))).collect();
+        let interrupts: Vec<usize> = case
+            .interrupts
+            .iter()
+            .map(|i| idx(*i, pieces.len().max(1)))
+            .collect();
         if !interrupts.is_empty() && pieces.len() > 1 {
             out.label("read_interrupted");
         }
